@@ -431,16 +431,19 @@ func SegSubset(S Seg, A *Shape) (bool, *Q) {
 		}
 	}
 	sort.Slice(in, func(i, j int) bool { return in[i].Cmp(in[j]) < 0 })
+	uniq := in[:0]
 	for i, t := range in {
-		if i > 0 && in[i-1].Cmp(t) == 0 {
-			continue
+		if i == 0 || in[i-1].Cmp(t) != 0 {
+			uniq = append(uniq, t)
 		}
+	}
+	for i, t := range uniq {
 		p := At(S, t)
 		if !A.Member(p) {
 			return false, &p
 		}
-		if i+1 < len(in) && in[i+1].Cmp(t) != 0 {
-			m := new(big.Rat).Add(t, in[i+1])
+		if i+1 < len(uniq) {
+			m := new(big.Rat).Add(t, uniq[i+1])
 			m.Mul(m, ratHalf)
 			q := At(S, m)
 			if !A.Member(q) {
